@@ -181,13 +181,14 @@ func (vfs *MemFS) createRootNode() *dirNode {
 }
 
 // createDir creates a new directory.
+// As on Linux, a directory created in a set-group-ID directory inherits the set-group-ID bit.
 func (vfs *MemFS) createDir(parent *dirNode, name string, perm fs.FileMode) *dirNode {
 	child := &dirNode{
 		baseNode: baseNode{
 			mtime: time.Now().UnixNano(),
-			mode:  vfs.dirMode | (perm & (fs.ModePerm | fs.ModeSticky) &^ vfs.UMask()),
+			mode:  vfs.dirMode | (perm & (fs.ModePerm | fs.ModeSticky) &^ vfs.UMask()) | (parent.mode & fs.ModeSetgid),
 			uid:   vfs.User().Uid(),
-			gid:   vfs.User().Gid(),
+			gid:   vfs.newGid(parent),
 		},
 		children: nil,
 	}
@@ -204,7 +205,7 @@ func (vfs *MemFS) createFile(parent *dirNode, name string, perm fs.FileMode) *fi
 			mtime: time.Now().UnixNano(),
 			mode:  vfs.fileMode | (perm & avfs.FileModeMask &^ vfs.UMask()),
 			uid:   vfs.User().Uid(),
-			gid:   vfs.User().Gid(),
+			gid:   vfs.newGid(parent),
 		},
 		id:    atomic.AddUint64(vfs.lastId, 1),
 		nlink: 1,
@@ -222,7 +223,7 @@ func (vfs *MemFS) createSymlink(parent *dirNode, name, link string) *symlinkNode
 			mtime: time.Now().UnixNano(),
 			mode:  fs.ModeSymlink | fs.ModePerm,
 			uid:   vfs.User().Uid(),
-			gid:   vfs.User().Gid(),
+			gid:   vfs.newGid(parent),
 		},
 		link: link,
 	}
@@ -230,6 +231,16 @@ func (vfs *MemFS) createSymlink(parent *dirNode, name, link string) *symlinkNode
 	parent.addChild(name, child)
 
 	return child
+}
+
+// newGid returns the group of a node created in the directory parent : as on Linux,
+// the group of the directory if its set-group-ID bit is set, the group of the current user otherwise.
+func (vfs *MemFS) newGid(parent *dirNode) int {
+	if parent.mode&fs.ModeSetgid != 0 {
+		return parent.gid
+	}
+
+	return vfs.User().Gid()
 }
 
 // isNotExist is IsNotExist without unwrapping.
